@@ -18,7 +18,7 @@ func init() {
 	Register(&Check{
 		ID:          "C19",
 		Technique:   "exhaustive deviation-bounded enumeration of send sequences of one PreparedMessage over connections of differing role / negotiated compression / write-compression setting / level (sequential), plus stateless model checking under the controlled scheduler (plain and -race builds) of concurrent sends that collide on the same cached frame",
-		Rule:        "sequential: {5 message types} x {9 payload sizes} x sequences of <= 4 sends over 32 connection kinds (first send free, later sends / setting changes / mutation of the caller's slice deviation-bounded), each send judged by the independent decoder against a WriteMessage twin; concurrent: 3 threads sending one PreparedMessage on 3 connections (same kind = same cache key, and mixed kinds), all schedules within the preemption bound, both flavours. non-trivial = at least one send and a non-default choice; distinct by observation hash",
+		Rule:        "sequential: {5 message types} x {11 payload sizes} x sequences of <= 4 sends over 32 connection kinds (first send free, later sends / setting changes / mutation of the caller's slice deviation-bounded), each send judged by the independent decoder against a WriteMessage twin; concurrent: 3 threads sending one PreparedMessage on 3 connections (same kind = same cache key, and mixed kinds), all schedules within the preemption bound, both flavours. non-trivial = at least one send and a non-default choice; distinct by observation hash",
 		Assumptions: []string{"compress/flate inflater trusted", "races = those ThreadSanitizer reports on explored schedules"},
 		Flavour:     "mixed",
 		Budget:      map[string]time.Duration{"quick": 100 * time.Second, "thorough": 20 * time.Minute},
@@ -55,7 +55,7 @@ func c19Kinds(tier string) []connKind {
 }
 
 var c19Types = []int{websocket.TextMessage, websocket.BinaryMessage, websocket.PingMessage, websocket.PongMessage, websocket.CloseMessage}
-var c19Sizes = []int{0, 1, 125, 126, 4095, 4096, 4097, 8193, 70000}
+var c19Sizes = []int{0, 1, 125, 126, 4095, 4096, 4097, 8193, 65535, 65536, 70000}
 
 func c19Scenarios(tier string) []*explore.Scenario {
 	var scs []*explore.Scenario
